@@ -49,7 +49,7 @@ pub fn run(cli: &Cli, rep: &Report) {
     rep.rule(
         "E-enum with a counting global allocator (per-thread current/peak bytes): (1) LZMAOptions::get_memory_usage vs the peak of construct -> write 64 KiB -> finish for LZMAWriter (all 25 lc/lp pairs with lc<=8, lp<=4) \
          and LZMA2Writer (15 pairs with lc+lp<=4) x dict in {4 KiB,64 KiB,1 MiB,8 MiB(,64 MiB)} x mode x finder; (2) lzma_get_memory_usage(_by_props) for LZMAReader and lzma2_get_memory_usage for LZMA2Reader over the same \
-         parameters while decoding a real stream; oracle: peak <= estimate*1024 and estimate*1024 <= 4*peak + 1 MiB; (3) every .lzma header from props 0..=224 x dict set x declared size {unknown, 0, 1, 4096, dict, 2^32, 2^40+4096, 2^64-2} x limits {0, need-1, need, need+1, u32::MAX}: \
+         parameters while decoding a real stream; oracle: peak <= estimate*1024 and estimate*1024 <= 4*peak + 1 MiB; (1b) the encoder estimator at every dictionary size 2^k-1, 2^k, 2^k+1, 3*2^(k-1) up to 768 MiB x mode x match finder: never below the dictionary itself and never decreasing as the dictionary grows; real peaks also for 256 MiB, 512 MiB-16, 512 MiB and 768 MiB with one byte of input (tables allocated but untouched); (3) every .lzma header from props 0..=224 x dict set x declared size {unknown, 0, 1, 4096, dict, 2^32, 2^40+4096, 2^64-2} x limits {0, need-1, need, need+1, u32::MAX}: \
          new_mem_limit fails with OutOfMemory, having allocated < 4 KiB, whenever limit < need (a declared size below the dictionary size may instead succeed with a smaller dictionary), succeeds whenever limit >= need, \
          and a reader that was created never allocated more than its limit; non-trivial = a case whose estimate passed both bounds / a limit that was enforced",
     );
@@ -84,6 +84,18 @@ pub fn run(cli: &Cli, rep: &Report) {
             }
         }
     }
+    // the large end of the dictionary range (up to the encoder's maximum of 768 MiB): one byte is written, so the
+    // multi-GiB tables are allocated (lazily zeroed, never touched) but cost address space only
+    let n_small = ecases.len();
+    for dict in [256u32 << 20, (512 << 20) - 16, 512 << 20, 768 << 20] {
+        for fast in [true, false] {
+            for bt4 in [false, true] {
+                let o = Opts { dict, lc: 3, lp: 0, pb: 2, fast, bt4, nice: 64, depth: 0 };
+                ecases.push(ECase { lzma2: false, o });
+                ecases.push(ECase { lzma2: true, o });
+            }
+        }
+    }
     rep.extra("encoder_cases", json!(ecases.len()));
     par_for_with(
         ecases.len(),
@@ -100,13 +112,14 @@ pub fn run(cli: &Cli, rep: &Report) {
             let est = lo.get_memory_usage() as u64;
             let r = catch(|| -> std::io::Result<u64> {
                 let base = alloc::begin();
+                let input: &[u8] = if i >= n_small { &input[..1] } else { &input };
                 if c.lzma2 {
                     let mut w = LZMA2Writer::new(NullSink, LZMA2Options { lzma_options: lo.clone(), chunk_size: None });
-                    w.write_all(&input)?;
+                    w.write_all(input)?;
                     w.finish()?;
                 } else {
                     let mut w = LZMAWriter::new_use_header(NullSink, &lo, None)?;
-                    w.write_all(&input)?;
+                    w.write_all(input)?;
                     w.finish()?;
                 }
                 Ok(alloc::peak_since(base) as u64)
@@ -130,6 +143,76 @@ pub fn run(cli: &Cli, rep: &Report) {
             rep.nontrivial_many(&st.1);
         },
     );
+
+    // ---------------- (1b) the encoder estimator over the whole dictionary range (no allocation): it must not decrease when
+    // the dictionary grows (a wrapped or truncated intermediate shows as a drop) and must cover at least the dictionary
+    {
+        let mut sizes: Vec<u32> = vec![];
+        for lg in 12..=29u32 {
+            for d in [(1u64 << lg) - 1, 1 << lg, (1 << lg) + 1, 3 << (lg - 1)] {
+                if (4096..=(768u64 << 20)).contains(&d) {
+                    sizes.push(d as u32);
+                }
+            }
+        }
+        sizes.push(768 << 20);
+        sizes.sort_unstable();
+        sizes.dedup();
+        let mut n = 0u64;
+        let mut nt = vec![];
+        for fast in [true, false] {
+            for bt4 in [false, true] {
+                let mut prev: Option<(u32, u32)> = None;
+                for &dict in &sizes {
+                    let o = Opts { dict, lc: 3, lp: 0, pb: 2, fast, bt4, nice: 64, depth: 0 };
+                    let desc = || format!("C17|enc-sweep|{}", o.desc());
+                    // the predecessor's figure is needed for the comparison, so every size is evaluated even in a replay
+                    let selected = cli.selected_with(desc);
+                    let est = match catch(|| o.lzma().get_memory_usage()) {
+                        Ok(e) => e,
+                        Err(p) => {
+                            if selected {
+                                rep.violation(Violation::new("panic", p.site(), desc()).attr("what", "LZMAOptions::get_memory_usage").attr("class", "sweep").detail(p.msg));
+                            }
+                            continue;
+                        }
+                    };
+                    if !selected {
+                        prev = Some((dict, est));
+                        continue;
+                    }
+                    n += 1;
+                    let mut ok = true;
+                    if (est as u64) < dict as u64 / 1024 {
+                        ok = false;
+                        rep.violation(
+                            Violation::new("estimate-too-low", "LZMAOptions::get_memory_usage: the figure is smaller than the dictionary alone", desc())
+                                .attr("what", "LZMAOptions::get_memory_usage")
+                                .attr("class", "sweep")
+                                .detail(format!("estimate {est} KiB, dictionary {} KiB", dict / 1024)),
+                        );
+                    }
+                    if let Some((pd, pe)) = prev {
+                        if est < pe {
+                            ok = false;
+                            rep.violation(
+                                Violation::new("estimate-too-low", "LZMAOptions::get_memory_usage: the figure decreases when the dictionary grows", desc())
+                                    .attr("what", "LZMAOptions::get_memory_usage")
+                                    .attr("class", "sweep")
+                                    .detail(format!("dictionary {pd}: {pe} KiB; dictionary {dict}: {est} KiB")),
+                            );
+                        }
+                    }
+                    prev = Some((dict, est));
+                    if ok {
+                        nt.push(hash_desc(&desc()));
+                    }
+                }
+            }
+        }
+        rep.add_many(&[("evaluations", n), ("encoder_sweep", n)]);
+        rep.nontrivial_many(&nt);
+    }
 
     // ---------------- (2) decoder estimators
     struct DCase {
